@@ -290,6 +290,17 @@ def run(chk):
     chk.evaluations += sub6.evaluations
     for v in sub6.violations:
         chk.violation(v["rule"], v["key"] + "@K6", "[release profile] " + v["what"], **v["detail"])
+    # a terminal's own slots hold the LAST state / command set: its Settable impls must not override the provided `set`
+    import rules.C15 as C15
+    subo = report.Check("C09", chk.tier)
+    C15.check_no_overrides(subo, prog)
+    keyo = "read:own-slot-is-last-set"
+    chk.obligation(keyo, "Terminal does not override Settable's provided methods")
+    bo = [v for v in subo.violations if "Terminal" in v["key"]]
+    for v in bo:
+        chk.violation("C09.read", "override:" + v["key"], "a terminal's own state / command is no longer simply the last one set: " + v["what"], **v["detail"])
+    if not bo:
+        chk.discharge(keyo)
     import selftest
     selftest.expect(chk, "C09", who_may_write, "C09.R1", "a free function storing Terminal's partner link", "writer:rogue_link")
     chk.assume("matching invariant (symmetric, at most one partner) holds before each operation: established inductively by R2 from the constructor, R1 shows no other writer",
